@@ -446,7 +446,9 @@ def check_protected(ctx, mod, result_enum):
             return def_of(e) == IRES + "::Deny"
         ctx.check(bool(tests) and all(all(denies(l) for l in leaves(t["then"])) for t in tests), rule, fn, f"{origin}:anonymous-test=>Deny",
                   "uuid <= UUID_ANONYMOUS => IResult::Deny",
-                  f"the `uuid <= UUID_ANONYMOUS` branch for origin {origin} does not evaluate to IResult::Deny", file=rec["file"], line=m.get("line"))
+                  (f"the `uuid <= UUID_ANONYMOUS` branch for origin {origin} does not evaluate to IResult::Deny" if tests else
+                   f"no `if <entry uuid> <= UUID_ANONYMOUS` test found in the {origin} arm of {mod}::protected_filter_entry"),
+                  file=rec["file"], line=m.get("line"))
 
     # (e) Deny dominates in apply_<mod>_access
     rule = "K4-deny-dominates"
